@@ -1,0 +1,10 @@
+//go:build verif
+
+// Contracts for package mustache/errors (comment-only; read by /verif's VC generator).
+package errors
+
+// every template error carries the given error code
+//@ func NewMustacheError
+//@   ensures[C03,C10] fresh(result) && result != nil && result.Code == code
+//@   assigns nothing
+//@   nopanic
